@@ -191,7 +191,8 @@ func c06Build(c *choice.Stream) *c06Case {
 			ty = []string{"FixedString(%s)", "DateTime64(%s)", "Decimal(%s, 2)", "Decimal(9, %s)", "Decimal32(%s)", "DateTime64(%s, 'UTC')", "Array(FixedString(%s))", "Enum8('a' = %s)", "Enum16('a' = %s, 'b' = %s)"}[c.Draw("ht.param", 9)]
 			ty = strings.ReplaceAll(ty, "%s", n)
 		default:
-			ty = []string{"Enum8(", "Enum8()", "Enum8('a')", "Enum8('a' = )", "Enum8('a' = 1, 'a' = 2)", "Enum16('' = 1)", "DateTime('Nowhere/Land')", "DateTime64(3, '')", "Map(String)", "Map(,)", "Tuple()", "Tuple(,)", "()", "(", ")", "Array", "Array()", "Nullable()", "LowCardinality()", "LowCardinality(Nullable())", "IntervalFortnight", "Interval", "Nested(a UInt8)", "SimpleAggregateFunction(sum, UInt64)", "\x00", "Array(\x00)"}[c.Draw("ht.odd", 26)]
+			odd := []string{"Enum8(", "Enum8()", "Enum8('a')", "Enum8('a' = )", "Enum8('a' = 1, 'a' = 2)", "Enum16('' = 1)", "DateTime('Nowhere/Land')", "DateTime64(3, '')", "Map(String)", "Map(,)", "Tuple()", "Tuple(,)", "()", "(", ")", "Array", "Array()", "DateTime64", "Decimal", "FixedString", "Enum8", "Enum16", "Map", "Tuple", "Nullable", "LowCardinality", "Nullable(DateTime64)", "Array(DateTime64)", "Nullable()", "LowCardinality()", "LowCardinality(Nullable())", "IntervalFortnight", "Interval", "Nested(a UInt8)", "SimpleAggregateFunction(sum, UInt64)", "\x00", "Array(\x00)"}
+			ty = odd[c.Draw("ht.odd", len(odd))]
 		}
 		rows := c.Pick("ht.rows", 0, 1, 3)
 		var w refproto.W
@@ -504,6 +505,9 @@ func runC06(t *testing.T, c *choice.Stream, r *Result, opt RunOpt) {
 					r.Harness("cannot read column %s: %v", col.Type(), err)
 					return
 				}
+			} else {
+				// inferred targets: no model of the values, but every accessor must work
+				gen.TouchRows(col, rows)
 			}
 		}
 	}()
